@@ -186,7 +186,7 @@ func sampleHeights(rng *vf.RNG, top uint32, all bool) []uint32 {
 
 func main() {
 	r = vf.NewRun("C40", "exploration",
-		"seeded solo chains (0-8 txs per block of mixed kinds, both commit paths, headers-first sync on some blocks); after commits, after clean restarts and after a crash-style restart every query family is compared with the committed block bytes for all heights (short chains) or a window + random + header-index-cache-edge heights (long chains); non-trivial = block with >=1 tx; distinct by (stage, height, txcount)")
+		"seeded solo chains (0-8 txs per block of mixed kinds, plus BIG blocks of 63..~300 transfers / storage puts or 3 txs with 56..140 storage puts, each committed under crash-point snapshots; both commit paths, headers-first sync on some blocks; quick adds a second chain of mostly empty blocks that is longer than the 2000-entry header index window and is restarted); after commits, after clean restarts and after a crash-style restart every query family is compared with the committed block bytes for all heights (short chains) or a window + random + header-index-cache-edge heights (long chains); non-trivial = block with >=1 tx; distinct by (stage, height, txcount)")
 	scratch := vf.Scratch("c40")
 	defer os.RemoveAll(scratch)
 	rng := vf.NewRNG(vf.Seed())
@@ -202,6 +202,16 @@ func main() {
 	crashSnapAt := map[int]bool{}
 	for k := 0; k < vf.N(8, 24); k++ {
 		crashSnapAt[2+rng.Intn(L-2)] = true
+	}
+	// big blocks (63..~300 transactions / storage writes), each committed under crash-point snapshots
+	bigAt := map[int]bigSpec{}
+	{
+		specs := bigSpecs(rng.Sub(0xb16))
+		perm := rng.Sub(0xb17).Perm(L - 4)
+		for k, sp := range specs {
+			bigAt[3+perm[k]] = sp
+			crashSnapAt[3+perm[k]] = true
+		}
 	}
 	var top uint32
 	var topA atomic.Uint32
@@ -246,9 +256,12 @@ func main() {
 	}
 	for i := 1; i <= L; i++ {
 		var txs []*types.Transaction
+		big, isBig := bigAt[i]
 		switch {
 		case i == 1:
 			txs = w.FundingTxs()
+		case isBig:
+			txs = bigTxs(w, rng.Sub(uint64(i)+0xb18), big, uint32(i))
 		case L > 500 && !rng.Chance(4): // long chains: mostly empty blocks
 		default:
 			txs, _ = w.RandomTxs(rng.Sub(uint64(i)), 8)
@@ -258,7 +271,7 @@ func main() {
 			panic(err)
 		}
 		viaSync := rng.Chance(50)
-		if rng.Chance(25) {
+		if withRival := rng.Chance(25); withRival && !isBig {
 			// header sync ran ahead with a COMPETING, equally valid block of this height (other timestamp, no
 			// transactions); the block that is committed afterwards is b, and every query must report b
 			rival, err := c.MakeBlock(nil, b.Header.Timestamp+1+uint32(rng.Intn(5)))
@@ -301,18 +314,22 @@ func main() {
 				crashDirs = append(crashDirs, [2]string{name, d})
 			}
 		}
+		stateWrites := 0
 		if viaSync {
 			res, err := c.Ledger.ExecuteBlock(b)
 			if err != nil {
 				panic(err)
 			}
+			stateWrites = res.WriteSet.Len()
 			if err := c.CommitSync(b, res.MerkleRoot); err != nil {
 				panic(err)
 			}
 		} else {
-			if _, err := c.CommitExec(b); err != nil {
+			res, err := c.CommitExec(b)
+			if err != nil {
 				panic(err)
 			}
+			stateWrites = res.WriteSet.Len()
 		}
 		ledgerstore.VerifCrashPoint = nil
 		record(b, viaSync)
@@ -320,9 +337,12 @@ func main() {
 			// a process that died at any point of the commit sequence of block i restarts into height i-1 or i,
 			// and every query family then agrees with the committed chain up to that height
 			for _, cd := range crashDirs {
+				if isBig {
+					countBig(r, big, len(txs), stateWrites)
+				}
 				cc, err := chain.NewSolo(cd[1], w.BK)
 				if err != nil {
-					r.Violation("crash-point-reopen-fails:"+cd[0], err.Error(), map[string]interface{}{"height": i, "point": cd[0]})
+					r.Violation("crash-point-reopen-fails:"+cd[0], err.Error(), map[string]interface{}{"height": i, "point": cd[0], "txs": len(txs), "state_writes": stateWrites})
 					os.RemoveAll(cd[1])
 					continue
 				}
@@ -335,7 +355,9 @@ func main() {
 					}
 					r.Count(fmt.Sprintf("crash_point_restart/%s/recovered_to_%s", cd[0], map[bool]string{true: "new", false: "old"}[rec == uint32(i)]))
 				}
-				cc.Close()
+				if p := vf.Catch(func() { cc.Close() }); p != nil {
+					r.Violation("crash-point-close-panics:"+cd[0], fmt.Sprint(p), map[string]interface{}{"height": i, "point": cd[0], "txs": len(txs), "state_writes": stateWrites})
+				}
 				os.RemoveAll(cd[1])
 			}
 		}
@@ -408,13 +430,103 @@ func main() {
 	r.Require("rival_checked/live", 5)
 	r.Require("rival_checked/after-restart", 3)
 	r.Require("height_checked/after-crash-point-restart", 20)
+	r.Require("big_block_crash_points_checked/tx>64", 12)
+	r.Require("big_block_crash_points_checked/tx>128", 6)
+	r.Require("big_block_crash_points_checked/tx>256", 6)
+	r.Require("big_block_crash_points_checked/state_writes>64", 6)
+	r.Require("big_block_crash_points_checked/state_writes>128", 6)
+	r.Require("big_block_crash_points_checked/few_txs_state_writes>128", 6)
+	if !vf.Thorough() {
+		// the thorough chain itself is longer than the header index window
+		longChain(scratch, rng.Sub(0x10c))
+		r.Require("height_checked/long-after-restart", 20)
+		r.Require("long_chain_heights_below_window_checked_after_restart", 10)
+	}
 	if vf.Thorough() {
+		for _, n := range []int{63, 64, 65, 127, 128, 129} {
+			r.Require(fmt.Sprintf("big_block_crash_points_checked/transfers/tx=%d", n), 6)
+			r.Require(fmt.Sprintf("big_block_crash_points_checked/kvputs/tx=%d", n), 6)
+		}
 		r.Require("concurrent_reads", 1000)
 		racelogCheck()
 	}
 	r.Assume("blocks are produced by the harness exactly like consensus/solo.makeBlock; pruning disabled")
 	os.RemoveAll(scratch)
 	r.Finish()
+}
+
+// longChain is the quick-tier companion of the thorough 2150-block chain: a chain of mostly empty blocks that
+// is longer than the header index window (ledgerstore.HEADER_INDEX_MAX_SIZE), restarted beyond the window;
+// by-height queries inside and below the window must still agree with the committed blocks.
+func longChain(scratch string, rng *vf.RNG) {
+	mu.Lock()
+	known = nil
+	mu.Unlock()
+	rivalAt = map[uint32]common.Uint256{}
+	w := chain.NewWorld(fmt.Sprintf("c40-long-%d", vf.Seed()), 5)
+	dir := filepath.Join(scratch, "long")
+	c, err := chain.NewSolo(dir, w.BK)
+	if err != nil {
+		panic(err)
+	}
+	record(c.Genesis, false)
+	L := int(ledgerstore.HEADER_INDEX_MAX_SIZE) + rng.Range(2, 60)
+	commit := func(i int) {
+		var txs []*types.Transaction
+		switch {
+		case i == 1:
+			txs = w.FundingTxs()
+		case rng.Chance(3):
+			txs, _ = w.RandomTxs(rng.Sub(uint64(i)), 4)
+		}
+		b, err := c.MakeBlock(txs, 0)
+		if err != nil {
+			panic(err)
+		}
+		if i%2 == 0 {
+			res, err := c.Ledger.ExecuteBlock(b)
+			if err != nil {
+				panic(err)
+			}
+			if err := c.CommitSync(b, res.MerkleRoot); err != nil {
+				panic(err)
+			}
+		} else if _, err := c.CommitExec(b); err != nil {
+			panic(err)
+		}
+		record(b, i%2 == 0)
+	}
+	check := func(top uint32, stage string) {
+		hs := sampleHeights(rng.Sub(uint64(top)+uint64(len(stage))), top, false)
+		for h := uint32(37); h < top; h += 97 {
+			hs = append(hs, h)
+		}
+		for _, h := range hs {
+			checkHeight(c, h, stage)
+			if h+ledgerstore.HEADER_INDEX_MAX_SIZE <= top && stage != "long-live" {
+				r.Count("long_chain_heights_below_window_checked_after_restart")
+			}
+		}
+		checkUnknown(c, rng.Sub(uint64(top)+77), top)
+	}
+	for i := 1; i <= L; i++ {
+		commit(i)
+	}
+	check(uint32(L), "long-live")
+	if err := c.Close(); err != nil {
+		r.Violation("close-fails", err.Error(), nil)
+	}
+	if c, err = chain.NewSolo(dir, w.BK); err != nil {
+		r.Violation("reopen-fails", err.Error(), map[string]interface{}{"height": L, "chain": "long"})
+		return
+	}
+	check(uint32(L), "long-after-restart")
+	for i := L + 1; i <= L+3; i++ {
+		commit(i)
+	}
+	check(uint32(L+3), "long-after-restart-and-more-blocks")
+	c.Close()
+	r.Sample(map[string]interface{}{"long_chain_length": L + 3, "restarted_at": L})
 }
 
 func racelogCheck() {
